@@ -50,6 +50,8 @@ type op struct {
 	P       *int   `json:"p,omitempty"`
 	ID      any    `json:"id,omitempty"`
 	Payload *int   `json:"payload,omitempty"`
+	Shape   string `json:"shape,omitempty"` // postAnswer: "error" = a JSON-RPC error answer (default: a result)
+	For     *int   `json:"for,omitempty"`   // postAnswer: tag of the request the answer is aimed at (harness bookkeeping)
 }
 
 func ip(i int) *int { return &i }
@@ -132,6 +134,9 @@ func rootsPayload(res *mcp.ListRootsResult, err error, kind string) string {
 	if err != nil {
 		return classifyErr(kind, err)
 	}
+	if res != nil && len(res.Roots) == 0 {
+		return "answered:errshape" // ListRoots decodes an accepted {"error":…} answer into an empty roots list
+	}
 	if res == nil || len(res.Roots) != 1 {
 		return "answered:?"
 	}
@@ -140,6 +145,14 @@ func rootsPayload(res *mcp.ListRootsResult, err error, kind string) string {
 
 func answerBody(rawID string, payload int) string {
 	return fmt.Sprintf(`{"jsonrpc":"2.0","id":%s,"result":{"roots":[{"uri":"file:///p%d","name":"%d"}]}}`, rawID, payload, payload)
+}
+
+// answerBodyOf: the body a session posts for op o (a result, or a JSON-RPC error answer).
+func answerBodyOf(o op) string {
+	if o.Shape == "error" {
+		return fmt.Sprintf(`{"jsonrpc":"2.0","id":%s,"error":{"code":-32000,"message":"refused %d"}}`, rawID(o.ID), *o.Payload)
+	}
+	return answerBody(rawID(o.ID), *o.Payload)
 }
 
 // backend is one real server with its reference peers.
@@ -157,12 +170,35 @@ type book struct {
 	waiters  map[int]*waiter // by request tag
 	idToTag  map[int64]int
 	poster   map[int]int // payload -> posting session
+	errFor   map[int]int // request tag -> payload of the (one) error-shaped answer aimed at it
 	srv      any         // the real server (for the hooks)
 	kind     string
 	reqKinds string
 }
 
+// notePost records who posted which payload (and which request an error-shaped answer is aimed at).
+func (b *book) notePost(o op) {
+	b.poster[*o.Payload] = *o.P
+	if o.Shape == "error" && o.For != nil {
+		if b.errFor == nil {
+			b.errFor = map[int]int{}
+		}
+		b.errFor[*o.For] = *o.Payload
+	}
+}
+
 func (b *book) settle(m int) string {
+	r := b.settle1(m)
+	if r == "answered:errshape" || r == "late:answered:errshape" {
+		// an error-shaped answer was accepted: at most one such answer is ever aimed at a request
+		if pl, ok := b.errFor[m]; ok {
+			return strings.Replace(r, "answered:errshape", fmt.Sprintf("answered:%d:%d", b.poster[pl], pl), 1)
+		}
+	}
+	return r
+}
+
+func (b *book) settle1(m int) string {
 	w := b.waiters[m]
 	if w == nil {
 		return "err:disabled"
@@ -224,6 +260,7 @@ type gen struct {
 	multi     bool // supports several sessions
 	partial   bool // some send reached some but not all sessions with streams
 	twoStream bool
+	errPosted map[int]bool
 }
 
 func (g *gen) do(o op) string {
@@ -269,6 +306,21 @@ func (g *gen) request(s int) {
 }
 
 func (g *gen) post(poster int, w *waiter, form string) {
+	g.postShape(poster, w, form, "")
+}
+
+// postShape: shape "error" posts a JSON-RPC error answer; at most one error-shaped answer is aimed at a request (ListRoots
+// hides the error's text, so the accepted one is identified by the request it was aimed at).
+func (g *gen) postShape(poster int, w *waiter, form, shape string) {
+	if shape == "error" {
+		if g.errPosted == nil {
+			g.errPosted = map[int]bool{}
+		}
+		if g.errPosted[w.tag] {
+			shape = ""
+		}
+		g.errPosted[w.tag] = true
+	}
 	g.nextPl++
 	pl := g.nextPl
 	var id any
@@ -280,7 +332,7 @@ func (g *gen) post(poster int, w *waiter, form string) {
 	default:
 		id = map[string]any{"int": w.id}
 	}
-	g.do(op{T: "postAnswer", P: ip(poster), ID: id, Payload: ip(pl)})
+	g.do(op{T: "postAnswer", P: ip(poster), ID: id, Payload: ip(pl), Shape: shape, For: ip(w.tag)})
 }
 
 func (g *gen) settle(m int) {
@@ -361,7 +413,7 @@ func (g *gen) step() {
 			poster = g.anySession(false) // any session, alive or not, possibly the addressee
 		}
 		form := []string{"int", "int", "int", "string", "unknown"}[g.c.Rng.Intn(5)]
-		g.post(poster, w, form)
+		g.postShape(poster, w, form, []string{"", "", "error"}[g.c.Rng.Intn(3)])
 	case len(g.out) > 0:
 		var tags []int
 		for t := range g.out {
@@ -588,6 +640,8 @@ func run(c *hk.Ctx) {
 	fixedMillion(c, mk["stdio"](999999), 999999)
 	fixedStateless(c)
 	runE2E(c)
+	runBurst(c)
+	runCancelled(c)
 	// generated histories
 	for _, kind := range []string{"streamable", "legacy", "stdio"} {
 		n := nHist
@@ -641,6 +695,20 @@ func fixedTwoSessions(c *hk.Ctx, be backend, start int64) {
 	g.request(1)
 	for _, w := range g.out {
 		g.post(1, w, "int")
+	}
+	g.finish()
+	// a foreign session answers with an error first, then the addressee answers: ListRoots must return the addressee's
+	g.request(0)
+	for _, w := range g.out {
+		g.postShape(1, w, "int", "error")
+		g.post(0, w, "int")
+	}
+	g.finish()
+	// the addressee's own error answer is accepted
+	g.request(1)
+	for _, w := range g.out {
+		g.post(0, w, "int")
+		g.postShape(1, w, "int", "error")
 	}
 	g.twoStream, g.partial = true, true
 	emit(c, g, start, "fixed-two-sessions")
